@@ -33,7 +33,7 @@ def represent(a, rep, unit=None):
         return np.ma.MaskedArray(a.astype(float))
     if rep == 'ma_allfalse':
         return np.ma.MaskedArray(a.astype(float), mask=np.zeros(a.shape, dtype=bool))
-    if rep in ('quantity', 'mixed_units'):
+    if rep in ('quantity', 'mixed_units', 'convertible_units'):
         return a.astype(float) * u.Jy
     return a.astype(float)
 
@@ -62,6 +62,8 @@ def leaves(v, out, path=''):
         return
     has_unit = isinstance(v, u.Quantity) and str(v.unit) not in ('', 'pix', 'pix2', 'deg', 'rad')
     try:
+        if isinstance(v, u.Quantity) and v.unit.is_equivalent(u.Jy):      # compare physical values
+            v = v.to(u.Jy)
         a = np.asarray(getattr(v, 'value', v))
         if isinstance(v, np.ma.MaskedArray):
             a = np.ma.filled(v.astype(float), np.nan) if v.dtype.kind in 'fiu' else np.asarray(v)
@@ -108,7 +110,9 @@ def run_program(args):
                 if rep == 'mixed_units' and k != 'data':
                     continue
                 inp[k] = represent(base[k], rep)
-        if rep in ('quantity',):
+                if rep == 'convertible_units' and k != 'data':      # the same physical values written in mJy
+                    inp[k] = (np.asarray(base[k], dtype=float) * 1000.0) * u.mJy
+        if rep in ('quantity', 'convertible_units'):
             inp['thr'] = 12.0 * u.Jy if entry in ('detect_sources', 'source_finder', 'find_peaks') else (10.0 * u.Jy if entry in ('daofinder', 'iraffinder', 'starfinder') else 12.0)
             inp['gain'] = 2.0 / u.Jy
             if entry in ('daofinder', 'iraffinder', 'starfinder', 'detect_sources', 'source_finder', 'deblend_sources', 'iterative_psf'):
